@@ -51,8 +51,19 @@ let () =
         let mc = X86.mod_check X86.bucket m (bytes_of_hex hex) in
         let cand_ids = List.map (fun (((rid, _), _), _) -> string_of_cz rid) cands in
         let mcs = List.filter (fun (rid, _) -> List.mem (string_of_cz rid) cand_ids) mc in
-        Printf.printf "%s | %s | %s | %s\n" (string_of_cz v) (String.concat ";" (List.map s_cand cands)) (String.concat "," (List.map string_of_cz others))
-          (String.concat "," (List.map (fun (rid, ok) -> (string_of_cz rid) ^ (if ok then "+" else "-")) mcs))
+        (* byte-exact re-encoding (X86Reencode.reencode_check): the bytes are the structural encoder's output for the instruction they
+           decode to; for a wait form the bytes after the leading 9B, read by the wait buckets *)
+        let bs = bytes_of_hex hex in
+        let rc = X86.reencode_check X86.bucket m bs @
+                 (match bs with b0 :: tl when string_of_cz b0 = "155" -> X86.reencode_check X86.wbucket m tl | _ -> []) in
+        let rcs = List.filter (fun (rid, _) -> List.mem (string_of_cz rid) cand_ids) rc in
+        let show l = String.concat "," (List.map (fun (rid, ok) -> (string_of_cz rid) ^ (if ok then "+" else "-")) l) in
+        (* encoder choices beyond the modelled ones (X86Shortest.extra_check): v = three-byte VEX where two bytes do, s = unneeded SIB *)
+        let xc = X86.extra_check X86.bucket m bs in
+        let xcs = List.filter (fun (rid, _) -> List.mem (string_of_cz rid) cand_ids) xc in
+        let showx l = String.concat "," (List.map (fun (rid, (v3, sb)) -> (string_of_cz rid) ^ (if v3 then "v" else "") ^ (if sb then "s" else "")) l) in
+        Printf.printf "%s | %s | %s | %s | %s | %s\n" (string_of_cz v) (String.concat ";" (List.map s_cand cands)) (String.concat "," (List.map string_of_cz others))
+          (show mcs) (show rcs) (showx xcs)
       | "D" :: mode :: hex :: _ ->
         let m = if mode = "64" then X86.M64 else X86.M32 in
         let cands = X86.denote2 X86.bucket X86.wbucket m (bytes_of_hex hex) in
